@@ -169,6 +169,8 @@ Proof.
     destruct (find_idx (key_is k) l); [|liac]. simpl. rewrite !cnt_cons, !cnt_app.
     pose proof (cnt_flat_swap_remove (flat_map ids_slot) n l a). liac.
   - apply prim_copy_le. apply nz_prim_rows.
+  - intros a Ha. simpl. rewrite cnt_zero_head, app_nil_r by auto.
+    pose proof (prim_copy_le (prim_rows zs) (CS None) (nz_prim_rows zs) a Ha) as K. simpl in K. liac.
 Qed.
 
 (* ---- CopyTo takes addresses only from the destination -------------------------------------------------------- *)
